@@ -355,12 +355,13 @@ def graph(
 def parse_printed(out: str, tag: str) -> list:
     """Values printed by PrintT(<<"tag", v>>): returns [v, ...] (parsed)."""
     vals = []
-    needle = f'<<"{tag}",'
+    needle = re.compile(r'<<\s*"' + re.escape(tag) + r'"\s*,')
     i = 0
     while True:
-        j = out.find(needle, i)
-        if j < 0:
+        mm = needle.search(out, i)
+        if mm is None:
             return vals
+        j = mm.start()
         # bracket matching from j
         depth = 0
         k = j
